@@ -30,6 +30,9 @@ UNIONS = [
     # bounds in a where-clause (and one the field types need for well-formedness)
     ('Gw', ['T', '[u8; 2]'], 2, '<T> where T: Copy', '<u16>'),
     ('Gassoc', ['<T as Assoc>::Out', 'u8'], 2, '<T> where T: Assoc, <T as Assoc>::Out: Copy', '<u8>'),
+    # zero-sized unions: the one value still goes through every impl (Hash feeds the empty slice, i.e. its length prefix)
+    ('zst', ['()', '[u16; 0]'], 0, '', ''),
+    ('zstG', ['[T; 0]', '()'], 0, '<T: Copy>', '<u32>'),
     ('G2', ["&'a [T; 0]", 'usize'], 8, "<'a, T: Copy>", "<'static, u16>"),
 ]
 NAME = {'d': (None, 'Ty'), 'r1': ('name = Other', 'Other'), 'r2': ('name(Other)', 'Other'), 'r3': ('rename = "Other"', 'Other'),
